@@ -6,8 +6,8 @@ import SqlObjVerif.Model.DrvUtil
   `reset` | `save` | `load` | `link t a b` (history only: add a link row) | `forget c id` (drop the instance)
   `op <inj> setattr c id col v` | `op <inj> set c id <kw> <extras>` | `op <inj> sync c id`
   `op <inj> create c <missing 0|1> <kw> <extras>` | `op <inj> createChild c <pkw> <ckw>`
-  `op <inj> destroy c id`       inj = `-` | `<k>o` | `<k>i`; kw = `col=v,…|-`; v = `bad|N|<int>`;
-                                extras = `-` or letters `u` `o` `b`
+  `op <inj> createChain <c:kw>… (leaf first)` | `op <inj> destroy c id`       inj = `-` | `<k>o` | `<k>i`; kw = `col=v,…|-`; v = `bad|N|<int>`;
+                                extras = `-` or `,`-joined `u` `o` `b` `f<col>=<v>`
   Answer to `op`: `<ok|Err> # <statement log> # <changes> # <dump>`. -/
 open SqlObjVerif SqlObjVerif.Fail SqlObjVerif.DrvUtil
 
@@ -56,8 +56,13 @@ def parseKw (t : String) : List (Nat × In) :=
     | _ => none
 
 def parseExtras (t : String) : List Extra :=
-  if t == "-" then [] else t.toList.map fun ch => match ch with
-    | 'u' => .unknown | 'b' => .badProp | _ => .okProp
+  if t == "-" then [] else (t.splitOn ",").map fun it =>
+    if it == "u" then .unknown else if it == "b" then .badProp
+    else if it.startsWith "f" then
+      match ((it.drop 1).toString).splitOn "=" with
+      | [c, v] => .fk (c.toNat?.getD 0) (parseIn v).val
+      | _ => .okProp
+    else .okProp
 
 def parseInj (t : String) : Option Inj :=
   if t == "-" then none else
@@ -71,6 +76,10 @@ def parseOp : List String → Option Op
   | ["create", c, m, kw, ex] => some (.create c.toNat! (m == "1") (parseKw kw) (parseExtras ex))
   | ["createChild", c, pkw, ckw] => some (.createChild c.toNat! (parseKw pkw) (parseKw ckw))
   | ["destroy", c, id] => some (.destroy c.toNat! id.toNat!)
+  | "createChain" :: levels =>
+    some (.createChain (levels.filterMap fun t => match t.splitOn ":" with
+      | [c, kw] => some (c.toNat?.getD 0, parseKw kw)
+      | _ => none))
   | _ => none
 
 def showVal : Val → String
